@@ -150,7 +150,7 @@ if __name__ == '__main__':
     sys.path.insert(0, os.path.join(VERIF, 'rules'))
     import core
     from facts import build_facts
-    pids = sys.argv[1:] or ['C%02d' % i for i in range(2, 17)]
+    pids = sys.argv[1:] or ['C%02d' % i for i in range(1, 17)]
     F = build_facts()
     baseline = {}
     for pid in pids:
